@@ -291,7 +291,10 @@ def build_extracted(driver_ml, out_name=None, modname=None, extract_v=None):
     if p.returncode != 0:
         raise BuildError("extraction failed\n" + (p.stdout + p.stderr)[-4000:])
     shutil.copy(os.path.join(EXTRACT, driver_ml), os.path.join(gen, driver_ml))
-    p = run(["ocamlfind", "ocamlopt", "-w", "-a", modname + ".mli", modname + ".ml", driver_ml, "-o", out_name], cwd=gen, timeout=900)
+    # a driver may ask for ocamlfind packages in a comment:  (* ocamlfind-flags: -package zarith -linkpkg *)
+    m = re.search(r"\(\*\s*ocamlfind-flags:\s*(.*?)\s*\*\)", open(os.path.join(EXTRACT, driver_ml)).read())
+    extra = m.group(1).split() if m else []
+    p = run(["ocamlfind", "ocamlopt"] + extra + ["-w", "-a", modname + ".mli", modname + ".ml", driver_ml, "-o", out_name], cwd=gen, timeout=900)
     if p.returncode != 0:
         raise BuildError("ocaml build failed\n" + (p.stdout + p.stderr)[-4000:])
     open(stamp, "w").write(key)
